@@ -801,7 +801,7 @@ def crash_selection(ck, cases):
     rng.shuffle(rest)
     if ck.tier == "quick":
         return full[:6], rest[:8]
-    return full + rest[:5], rest[5:35]
+    return full + rest[:10], rest[10:45]
 
 
 def full_run_order(ck, cases, sel):
@@ -822,7 +822,7 @@ def full_run_order(ck, cases, sel):
 
 JOBS = 4
 BUDGET = {"quick": {"full_s": 20, "full_max": 80, "crash_s": 40},
-          "thorough": {"full_s": 240, "full_max": 100000, "crash_s": 420}}
+          "thorough": {"full_s": 240, "full_max": 100000, "crash_s": 520}}
 
 
 def progress(msg):
